@@ -1,7 +1,7 @@
 """C07 - no filter string can inject SQL through the raw SQL dialects.
 
-TLC (MC_C07) enumerates pairs of filter texts that differ only in the content of one string literal (39 syntactic
-positions x 28 adversarial contents: quotes, comment markers, semicolons, backslashes, NUL, Unicode quotes incl.
+TLC (MC_C07) enumerates pairs of filter texts that differ only in the content of one string literal (51 syntactic
+positions x 38 adversarial contents: quotes, comment markers, semicolons, backslashes, NUL, Unicode quotes incl.
 compatibility forms, LIKE wildcards, newlines) or in the spelling of one field.  Both members are translated by
 the three dialects (with and without table alias); the emitted SQL pair is a trace validated by TLC with the
 SqlLex automaton (Trace_Sql): both end in normal mode, contain no comment / semicolon / unlexable token, have the
@@ -46,7 +46,7 @@ def translate(V, alias, text):
 
 
 def run(ctx):
-    ctx.rule = ("pairs of filters differing in one string literal (39 positions x 28 contents) or one field spelling "
+    ctx.rule = ("pairs of filters differing in one string literal (51 positions, incl. next to operands of every other literal type, x 38 contents, incl. contents shaped like date/time/number/GUID/null literals followed by a quote) or one field spelling "
                 "(8 positions x 11 spellings) x 3 dialects x alias on/off; non-trivial = distinct pair whose two SQL "
                 "texts were produced and compared")
     ctx.trusted = ["spec/SqlLex.tla (the definition of a SQL string-literal / quoted-identifier token)"]
